@@ -1327,7 +1327,8 @@ def _translator_checks(eng):
         yield ("translator-reproduces-committed", same,
                "byte-identical to the committed file" if good == text else
                "only comments differ from the committed file" if same else
-               "the source under test translates to other definitions than the committed lean/" + c13_tr.GEN_REL)
+               "the source under test translates to other definitions than the committed lean/" + c13_tr.GEN_REL +
+               ": " + ", ".join(c13_tr.changed_defs(good, text)) + " (theorems src_<name>_is_model)")
 
 
 def extra_checks(eng):
